@@ -35,16 +35,21 @@ def run(tier, seed, scale):
                        "every returning caller and the privacy of every element's plain counter"]
     q = tier == "quick"
     phases = [
-        Phase("rel-hot", "c19", "rel", 60000 if q else 600000, procs=6 if q else 10, min_nontrivial=15000 if q else 150000),
+        Phase("rel-hot", "c19", "rel", 60000 if q else 600000, procs=5 if q else 10, min_nontrivial=15000 if q else 150000),
         Phase("rel-2cpu", "c19", "rel", 8000 if q else 80000, procs=2 if q else 4, cpus=2, min_nontrivial=1000),
         Phase("rel-1cpu", "c19", "rel", 6000 if q else 60000, procs=2 if q else 4, cpus=1, min_nontrivial=500),
-        Phase("dbg-hot", "c19", "dbg", 20000 if q else 200000, procs=3 if q else 6),
+        Phase("dbg-hot", "c19", "dbg", 16000 if q else 200000, procs=2 if q else 6),
         Phase("tsan", "c19", "tsan", 3000 if q else 40000, procs=3 if q else 8, timeout=1500),
+        # class X (known finding once.runner-destructor-spins-in-arena-slot): can wedge, so it lives in its own small processes;
+        # the watchdog verdict (c19.onceX.hang.*) ends only that process
+        Phase("rel-onceX", "c19", "rel", 1600 if q else 6000, procs=2 if q else 6, args=["--mode", "oncex"], timeout=1500),
     ]
     if not q:
         phases.append(Phase("asan", "c19", "asan", 80000, procs=6, timeout=1500))
         phases.append(Phase("asan-1cpu", "c19", "asan", 10000, procs=2, cpus=1, timeout=1500))
         phases.append(Phase("dbg-1cpu", "c19", "dbg", 30000, procs=2, cpus=1))
+        phases.append(Phase("dbg-onceX", "c19", "dbg", 2000, procs=2, args=["--mode", "oncex"], timeout=1500))
+        phases.append(Phase("tsan-onceX", "c19", "tsan", 600, procs=2, args=["--mode", "oncex"], timeout=1500))
         phases.append(Phase("rel-once", "c19", "rel", 300000, procs=4, args=["--mode", "once"]))
         phases.append(Phase("rel-ets", "c19", "rel", 150000, procs=4, args=["--mode", "ets"]))
         phases.append(Phase("rel-etsw", "c19", "rel", 150000, procs=3, args=["--mode", "etsw"]))
@@ -71,7 +76,8 @@ def run(tier, seed, scale):
     for lg in range(3, 10):
         chk.require(g("ets_root_cas_attempts_lg%d" % lg) > 20, "doubling to 2^%d slots attempted only %d times" % (lg, g("ets_root_cas_attempts_lg%d" % lg)))
     chk.extra["windows"] = {
-        "once_flags": g("once_scenarios"),
+        "once_flags": g("once_scenarios"), "once_flags_class_X(own processes)": g("onceX_scenarios"),
+        "once_flags_by_placement": {k[len("once_placement_"):]: v for k, v in st.items() if k.startswith("once_placement_")},
         "once_winner_cas": n(190),
         "once_helper_ref_taken_on_running_runner": hist(191)[1],
         "once_helpers_that_joined_a_runner(assist)": n(192),
@@ -83,6 +89,7 @@ def run(tier, seed, scale):
         "once_flags_all_gave_up_then_called_again": g("once_flags_all_gave_up_then_called_by_main"),
         "once_flags_deleted_by_last_caller": g("once_flags_deleted_by_last_caller"),
         "once_callers_by_kind": {k[len("once_callers_"):]: v for k, v in st.items() if k.startswith("once_callers_") and k not in ("once_callers_gave_up", "once_callers_overlapping")},
+        "once_callers_overlapping": g("once_callers_overlapping"),
         "ets_containers": g("ets_scenarios") + g("etsw_scenarios"),
         "ets_containers_by_kind": {k[len("ets_kind_"):]: v for k, v in st.items() if k.startswith("ets_kind_")},
         "ets_thread_participations": g("ets_thread_participations"), "ets_distinct_ids": g("ets_distinct_ids"),
